@@ -443,6 +443,55 @@ def same_gate_function_part(ctx):
     return n
 
 
+def mutating_args_part(ctx):
+    """A cacheable node whose function updates an argument in place (list.append): the entry belongs to the arguments the
+    function was CALLED with.  Repeating those arguments hits; arguments equal to the mutated state are other arguments."""
+    from hypergraph import Graph, SyncRunner, AsyncRunner, InMemoryCache
+    from hypergraph.nodes import FunctionNode
+    import asyncio
+    rng = ctx.rng
+    n = 0
+    for _ in range(ctx.n(25, 300)):
+        calls = []
+
+        def grow(items, extra):
+            calls.append((tuple(items), extra))
+            items.append(extra)
+            return len(items)
+        node_ = FunctionNode(grow, name="grow", output_name="size", cache=True)
+        g = Graph([node_])
+        is_async = rng.random() < 0.4
+        mk = (lambda **kw: AsyncRunner(**kw)) if is_async else (lambda **kw: SyncRunner(**kw))
+
+        def run(r, items, extra):
+            res = r.run(g, {"items": list(items), "extra": extra})
+            res = asyncio.run(res) if is_async else res
+            return res.values
+        cached = mk(cache=InMemoryCache())
+        base = [rng.randint(0, 3) for _j in range(rng.randint(0, 2))]
+        extra = rng.randint(0, 3)
+        history = [(base, extra), (base, extra), (base + [extra], extra), (base, extra)]
+        rng.shuffle(history)
+        seen = set()
+        for (items, ex) in history:
+            before = len(calls)
+            got = run(cached, items, ex)
+            invoked = len(calls) - before
+            want = run(mk(), items, ex)
+            n += 1
+            key = (tuple(items), ex)
+            if got != want:
+                ctx.violation("oracle", f"cached run on items={items} extra={ex} returned {got}, the uncached run {want} (an entry filed under "
+                              f"the arguments as the function LEFT them was served)", case={"history": history, "async": is_async})
+                break
+            if key in seen and invoked:
+                ctx.violation("oracle", f"the function was invoked again for arguments items={items} extra={ex} already cached (unbounded cache): "
+                              f"the entry was filed under other arguments", case={"history": history, "async": is_async})
+                break
+            seen.add(key)
+    return n
+
+
 def container_part(ctx):
     """An entry is never served for different arguments: arguments that differ only in container type or ordering
     (dict vs list of its items, set vs sorted list, dicts in another insertion order) are different arguments."""
@@ -477,7 +526,7 @@ def run(ctx):
     n1, t1 = lru_part(ctx, batch, N)
     n2, t2 = disk_part(ctx, batch, N)
     n3, t3 = program_part(ctx)
-    n4 = same_definition_part(ctx) + container_part(ctx) + same_gate_function_part(ctx)
+    n4 = same_definition_part(ctx) + container_part(ctx) + same_gate_function_part(ctx) + mutating_args_part(ctx)
     res = batch.run()
     if res["error"]:
         ctx.violation("harness", res["error"])
